@@ -32,6 +32,7 @@ TECHNIQUE = "property-based testing: differential between two entry points (solv
 LEVEL_TEXT = "Exploration over generated models/agents; each case compares two API paths and every on-grid row with the solved arrays."
 
 PROFILE = Profile(name="agree", fully_discrete=0.5, max_periods=4, p_filter=0.6, max_points=20_000,
+                  p_period_only_in_constraints=0.3,
                   force_sparse_and_dense_choice=0.15)
 
 
